@@ -671,6 +671,19 @@ def server_pass_facts(mod):
                     handler_name = v.attr
     if handler_name is None or handler_name not in server:
         raise Unclassified("no handler bound to verb 'pass' in commands_mapping")
+    # every key of the mapping that is bound to that same handler (an alias entry "xpass": self.pass_ would be one),
+    # and whether the mapping is a literal {"<verb>": self.<method>, ...} that nothing else in __init__ touches
+    pass_verbs, mapping_literal = [], True
+    n_mentions = sum(1 for n in ast.walk(server["__init__"]) if isinstance(n, ast.Attribute) and n.attr == "commands_mapping")
+    for n in ast.walk(server["__init__"]):
+        if isinstance(n, ast.Assign) and src(n.targets[0]) == "self.commands_mapping" and isinstance(n.value, ast.Dict):
+            for k, v in zip(n.value.keys, n.value.values):
+                if not (isinstance(k, ast.Constant) and isinstance(k.value, str) and isinstance(v, ast.Attribute) and src(v.value) == "self"):
+                    mapping_literal = False
+                elif v.attr == handler_name:
+                    pass_verbs.append(k.value)
+    if n_mentions != 1:
+        mapping_literal = False
     h = server[handler_name]
     params = [a.arg for a in h.args.args]
     if len(params) != 3:
@@ -830,6 +843,8 @@ def server_pass_facts(mod):
     returns_lower = len(rets) == 1 and isinstance(rets[0].value, ast.Tuple) and len(rets[0].value.elts) == 2 and src(rets[0].value.elts[0]).endswith(".lower()")
     return {
         "handler": handler_name,
+        "pass_verbs": pass_verbs,
+        "mapping_literal": mapping_literal,
         "replies": replies,
         "literal": lit,
         "sinks": sinks,
@@ -1350,6 +1365,9 @@ def generate(src_dir):
     out += f"Definition parse_command_returns_lowered_verb : bool := {emit.boolean(pf['returns_lower'])}.\n\n"
     out += "(* the handler bound to verb ""pass"" in commands_mapping *)\n"
     out += f"Definition pass_handler : string := {S(pf['handler'])}.\n"
+    out += "(* every key of commands_mapping bound to that handler; the mapping is a literal dict of ""verb"": self.<method>, assigned once *)\n"
+    out += "Definition pass_handler_verbs : list (list Z) := " + emit.lst(emit.text(c) for c in pf["pass_verbs"]) + ".\n"
+    out += f"Definition commands_mapping_literal : bool := {emit.boolean(pf['mapping_literal'])}.\n"
     pr = lambda l: emit.lst(f"({emit.text(a)}, {emit.text(b)})" for a, b in l)
     out += f"Definition pass_replies : list (list Z * list Z) := {pr(pf['replies'])}.\n"
     out += f"Definition pass_replies_literal : bool := {emit.boolean(pf['literal'])}.\n"
